@@ -121,6 +121,9 @@ def run_cases(cases, variant="plain", binary=None, cpu_s=None, as_bytes=None,
     # DbError captures a backtrace per error when RUST_BACKTRACE is set (2-8 ms .. seconds of CPU per error under load);
     # panic and allocation-failure backtraces (used for attribution) are governed by RUST_BACKTRACE and stay on
     e["RUST_LIB_BACKTRACE"] = "0"
+    # glibc reserves 64 MiB of address space per malloc arena and creates up to 8 x cores arenas for busy threads: with 16
+    # worker threads that alone exhausts the 8 GiB address-space cap (seen as tiny allocations "failing")
+    e.setdefault("MALLOC_ARENA_MAX", "8")
     if stack_mb:
         e["VDRIVE_STACK_MB"] = str(stack_mb)
     e.update(SANITIZER_ENV.get(variant, {}))
